@@ -17,6 +17,8 @@ pub struct Cfg {
 #[derive(Clone, Debug)]
 pub enum Ev {
     Tick(u32),
+    /// n ticks during which nobody reads a waveform; one look afterwards (also the long-run drift check)
+    TickBlind(u32),
     SetFreq(u32),
     Reset,
     SetPhase(u32),
@@ -43,6 +45,7 @@ const P_SQUARE_EDGE_CROSSED: usize = 14;
 const P_REORDERED_READS: usize = 15;
 const P_SLOW_TICKS: usize = 16;
 const P_SWEEP_TRACES: usize = 17;
+const P_BLIND_TICKS: usize = 18;
 
 const TWO24: f64 = 16777216.0;
 const ULP1: f64 = 1.1920928955078125e-7;
@@ -253,6 +256,7 @@ impl Engine for LfoEngine {
         "reordered_or_repeated_reads",
         "ticks_with_increment_le_64",
         "sweep_traces",
+        "unobserved_tick_stretches",
     ];
     const NFAULT: usize = 7;
     const COMPONENTS: &'static [(&'static str, &'static str)] = &[
@@ -294,6 +298,54 @@ impl Engine for LfoEngine {
                     }
                 }
                 ctx.transition(1 | (ex.phi >> 20) << 3 | ((*n).min(255)) << 8);
+            }
+            Ev::TickBlind(n) => {
+                ctx.sim_ns += (*n as f64 * 1e9 / ex.fs as f64) as u64;
+                let phi0 = ex.phi;
+                let v0 = ex.phi_valid;
+                for i in 0..*n {
+                    real!(ex.l.tick());
+                    if i & 0xffffff == 0xffffff {
+                        heartbeat();
+                    }
+                }
+                ctx.steps += *n as u64;
+                ctx.probe(P_BLIND_TICKS);
+                let o = ex.observe(ctx);
+                ex.last = o;
+                if v0 && ex.phi_valid {
+                    let got = ex.phi.wrapping_sub(phi0) & 0x00FF_FFFF;
+                    if let Some(d) = ex.delta_const {
+                        // the increment is constant between set_frequency calls: n ticks advance by exactly n*d (mod 2^24)
+                        let want = ((*n as u64).wrapping_mul(d as u64) & 0x00FF_FFFF) as u32;
+                        ctx.check(11, "advance_is_constant", got == want, || {
+                            format!(
+                                "{} unobserved ticks at a constant step of {} advanced the phase by {} (mod 2^24), expected {}",
+                                n, d, got, want
+                            )
+                        });
+                    } else if let Some(f) = ex.f {
+                        // first ticks after a set_frequency: the statement's window, if n ticks keep it narrower than a cycle
+                        let q = TWO24 * f as f64 / ex.fs as f64;
+                        let lo = (q * (1.0 - ULP1) - 1.0) * *n as f64;
+                        let hi = q * (1.0 + ULP1) * *n as f64;
+                        if hi - lo < TWO24 / 2.0 {
+                            let k0 = (lo / TWO24).floor();
+                            let ok = [k0, k0 + 1.0].iter().any(|k| {
+                                let dd = got as f64 + k * TWO24;
+                                dd >= lo && dd <= hi
+                            });
+                            ctx.check(11, "tick_advance_window", ok, || {
+                                format!(
+                                    "f={:e} Hz at fs={:e}: {} unobserved ticks advanced the phase by {} (mod 2^24), allowed [{:.1}, {:.1}] (mod 2^24)",
+                                    f, ex.fs, n, got, lo, hi
+                                )
+                            });
+                        }
+                    }
+                }
+                ex.ticks_since_sync += *n as u64;
+                ctx.transition(6 | (ex.phi >> 20) << 3 | ((*n).min(255)) << 8);
             }
             Ev::SetFreq(bits) => {
                 let f = f32::from_bits(*bits);
@@ -429,6 +481,7 @@ impl Engine for LfoEngine {
     fn ev_json(e: &Ev) -> J {
         match e {
             Ev::Tick(n) => J::Arr(vec![J::s("tick"), J::u(*n as u64)]),
+            Ev::TickBlind(n) => J::Arr(vec![J::s("tick_unobserved"), J::u(*n as u64)]),
             Ev::SetFreq(b) => J::Arr(vec![J::s("set_frequency"), J::hex32(*b), J::Num(f32::from_bits(*b) as f64)]),
             Ev::Reset => J::Arr(vec![J::s("reset")]),
             Ev::SetPhase(b) => J::Arr(vec![J::s("set_phase"), J::hex32(*b), J::Num(f32::from_bits(*b) as f64)]),
@@ -440,6 +493,7 @@ impl Engine for LfoEngine {
         let (n, a) = ev_name(j)?;
         Ok(match n {
             "tick" => Ev::Tick(ju64(arg(a, 0)?)? as u32),
+            "tick_unobserved" => Ev::TickBlind(ju64(arg(a, 0)?)? as u32),
             "set_frequency" => Ev::SetFreq(arg(a, 0)?.as_hex32().ok_or("bad bits")?),
             "reset" => Ev::Reset,
             "set_phase" => Ev::SetPhase(arg(a, 0)?.as_hex32().ok_or("bad bits")?),
@@ -451,6 +505,7 @@ impl Engine for LfoEngine {
     fn shrink_ev(e: &Ev) -> Vec<Ev> {
         match e {
             Ev::Tick(n) if *n > 1 => vec![Ev::Tick(1), Ev::Tick(n / 2), Ev::Tick(n - 1)],
+            Ev::TickBlind(n) if *n > 1 => vec![Ev::TickBlind(1), Ev::TickBlind(n / 2), Ev::TickBlind(n - 1)],
             Ev::SetFreq(b) => shrink_f32(f32::from_bits(*b)).into_iter().map(|c| Ev::SetFreq(c.to_bits())).collect(),
             Ev::SetPhase(b) => {
                 let mut v: Vec<Ev> = [0.25f32, 0.75, 0.9990234375].iter().map(|c| Ev::SetPhase(c.to_bits())).collect();
@@ -539,7 +594,15 @@ fn random_run(rng: &mut Rng, prof: &Profile, run: u64, sink: &mut Sink<LfoEngine
     let budget: u64 = if prof.tier == Tier::Thorough { 60_000 } else { 30_000 };
     let max_events = 20 + rng.usize(120);
     let style = rng.below(4);
+    let blind = rng.chance(0.16);
     t.push(Ev::SetFreq(gen_freq(rng, fs, chaos).to_bits()));
+    if prof.tier == Tier::Thorough && run == 3 {
+        // a day of uptime: more ticks than a 32-bit counter holds; the phase must still be where the constant step puts it
+        t.push(Ev::Tick(2));
+        t.push(Ev::TickBlind(u32::MAX - rng.below(1000) as u32));
+        t.push(Ev::TickBlind(rng.range(1, 5000) as u32));
+        t.push(Ev::Tick(rng.range(1, 50) as u32));
+    }
     // long-running blocks (where narrow counters wrap), in a small share of the runs
     if rng.chance(0.02) {
         let n = rng.near_pow2(false);
@@ -588,7 +651,22 @@ fn random_run(rng: &mut Rng, prof: &Profile, run: u64, sink: &mut Sink<LfoEngine
                         (left as u64 + rng.below(8)).clamp(1, 6000)
                     }
                 };
-                t.push(Ev::Tick(n as u32));
+                if blind && rng.chance(0.5) {
+                    t.push(Ev::Tick(1));
+                    t.push(Ev::TickBlind(n as u32));
+                } else {
+                    t.push(Ev::Tick(n as u32));
+                }
+            }
+            1 if rng.chance(0.2) => {
+                // a smoothed frequency pot: many tiny steps in one direction, a tick after each
+                let mut f = gen_freq(rng, fs, chaos) as f64;
+                let r = 1.0 + rng.log_uniform(1e-7, 1e-3) * if rng.chance(0.5) { -1.0 } else { 1.0 };
+                for _ in 0..rng.range(20, 200) {
+                    f = (f * r).min(fs as f64);
+                    t.push(Ev::SetFreq((f as f32).to_bits()));
+                    t.push(Ev::Tick(rng.range(1, 2) as u32));
+                }
             }
             1 => t.push(Ev::SetFreq(gen_freq(rng, fs, chaos).to_bits())),
             2 => t.push(Ev::Reset),
